@@ -21,6 +21,10 @@ type Node struct {
 	Arg   uint64  // value (0,1), length (2,3,4,5), tag number (6), simple value / float bits (7)
 	Data  []byte  // content of a byte (2) or text (3) string
 	Kids  []*Node // 4: elements; 5: key0,value0,key1,value1,...; 6: the tagged item
+	// Nested: a byte string whose whole content is itself one CBOR array / map / tagged item (a
+	// proof carried as opaque bytes) is ALSO parsed; when Nested is set Encode re-encodes it as the
+	// content, so that leaves inside the embedded item can be mutated.
+	Nested *Node
 }
 
 var errTrunc = errors.New("cbor: truncated")
@@ -34,7 +38,29 @@ func Parse(b []byte) (*Node, error) {
 	if len(rest) != 0 {
 		return nil, fmt.Errorf("cbor: %d trailing bytes", len(rest))
 	}
+	expandNested(n, 0)
 	return n, nil
+}
+
+// expandNested parses byte strings that hold exactly one embedded CBOR container.
+func expandNested(n *Node, depth int) {
+	if depth > 3 {
+		return
+	}
+	if n.Major == 2 && len(n.Data) >= 2 {
+		if m := n.Data[0] >> 5; m == 4 || m == 5 || m == 6 {
+			if in, rest, err := parse(n.Data, 0); err == nil && len(rest) == 0 && len(in.Kids) > 0 {
+				// only if re-encoding reproduces the bytes (otherwise leave it opaque)
+				if string(in.Encode()) == string(n.Data) {
+					n.Nested = in
+					expandNested(in, depth+1)
+				}
+			}
+		}
+	}
+	for _, k := range n.Kids {
+		expandNested(k, depth)
+	}
 }
 
 func parse(b []byte, depth int) (*Node, []byte, error) {
@@ -144,6 +170,9 @@ func (n *Node) Encode() []byte { return n.append(nil) }
 
 func (n *Node) append(out []byte) []byte {
 	arg := n.Arg
+	if n.Major == 2 && n.Nested != nil {
+		n.Data = n.Nested.Encode()
+	}
 	switch n.Major {
 	case 2, 3:
 		arg = uint64(len(n.Data))
@@ -190,6 +219,9 @@ func (n *Node) Clone() *Node {
 	c.Kids = make([]*Node, len(n.Kids))
 	for i, k := range n.Kids {
 		c.Kids[i] = k.Clone()
+	}
+	if n.Nested != nil {
+		c.Nested = n.Nested.Clone()
 	}
 	return &c
 }
